@@ -3,6 +3,7 @@
 from __future__ import annotations
 
 import asyncio
+import logging
 from typing import Any
 
 from aiomysensors.exceptions import AIOMySensorsError, TransportFailedError
@@ -10,6 +11,10 @@ from aiomysensors.gateway import Config, Gateway
 from aiomysensors.model.message import Message
 from aiomysensors.model.node import Child, Node
 from aiomysensors.transport import Transport
+
+
+logging.getLogger("asyncio").setLevel(logging.CRITICAL)
+logging.getLogger("aiomysensors").setLevel(logging.CRITICAL)
 
 
 class Drained(Exception):
